@@ -281,6 +281,18 @@ def r4_dyn(toks, log):
         i += 1
     return out
 
+def r16b_closure_wildcards(toks, log):
+    """R16b: a closure whose only parameter is the wildcard `|_|` gets a named parameter (Verus supports only variables there)."""
+    out = []
+    n = 0
+    for i, t in enumerate(toks):
+        if t.text == "_" and 0 < i < len(toks) - 1 and toks[i - 1].text == "|" and toks[i + 1].text in ("|", ":") and (i < 2 or toks[i - 2].text in ("(", ",", "=")):
+            log.add("R16", t, "|_|")
+            out.append(t.clone(text="_verif_ign%d" % n)); n += 1
+        else:
+            out.append(t)
+    return out
+
 R12 = {"to_be_bytes", "to_le_bytes", "from_be_bytes", "from_le_bytes"}
 def r12_bytes(toks, log):
     out = []
@@ -528,6 +540,7 @@ def apply_item_rewrites(toks, log, opts=None):
     toks = r14_concat(toks, log)
     toks = r4_dyn(toks, log)
     toks = r16_pattern_params(toks, log)
+    toks = r16b_closure_wildcards(toks, log)
     toks = r12_bytes(toks, log)
     if opts.get("inherent"):
         toks = r8_inherent(toks, log, opts.get("assoc"))
